@@ -231,6 +231,11 @@ func (ap *app) collectArtifactsRec(dir string) Artifact {
 			// Editor temp files. Ignore.
 			return nil
 		}
+		if !info.IsDir() && !info.Mode().IsRegular() && (info.Mode()&os.ModeType != os.ModeSymlink) {
+			// Not uploadable (fifo, socket, device): removed at the end
+			// of the play, see removeNonUploadableFiles.
+			return nil
+		}
 		var subA Artifact
 		if info.IsDir() {
 			subA = ap.collectArtifactsRec(path)
